@@ -130,7 +130,7 @@ class Ctx:
             return name
         if k == "structval":
             parts = []
-            for f in l["fields"]:
+            for f in (l.get("fields") or []):
                 if not f.get("settable", True):
                     continue
                 acc = self.accessor(t.sort(), f["acc"]) if hasattr(t, "sort") else None
@@ -226,7 +226,7 @@ class Ctx:
         return None
 
     def fill_struct(self, name, el, ref):
-        for f in el["fields"]:
+        for f in (el.get("fields") or []):
             if not f.get("settable", True):
                 continue
             fl = f["l"]
